@@ -68,9 +68,13 @@ func genOp(t *rapid.T, label string, maxSeg int64, purge bool) op {
 	case k < 8:
 		// sizes around the segment limit
 		var sz int
-		switch rapid.IntRange(0, 4).Draw(t, label+".sk") {
+		switch rapid.IntRange(0, 5).Draw(t, label+".sk") {
 		case 0:
 			sz = rapid.IntRange(0, 8).Draw(t, label+".sz")
+		case 5:
+			// the largest blocks a fresh segment admits (the admission test
+			// counts the footer but not the block's own length prefix)
+			sz = int(maxSeg) - 8 - rapid.IntRange(0, 3).Draw(t, label+".d")
 		case 1:
 			sz = int(maxSeg) - 8 - 8 - rapid.IntRange(-3, 3).Draw(t, label+".d")
 		case 2:
